@@ -114,6 +114,18 @@ func runC15(cfg *config) *Report {
 				}
 			}
 		}
+		if i%5 == 4 || i%5 == 0 {
+			// bundles whose sequence numbers are not ascending (the caller numbers them; nothing reorders a file)
+			for ci := range f.CashLetters {
+				bs := f.CashLetters[ci].Bundles
+				for bi := range bs {
+					if bs[bi].BundleHeader != nil && len(bs) > 1 {
+						bs[bi].BundleHeader.BundleSequenceNumber = fmt.Sprintf("%04d", 3*(len(bs)-bi)+1)
+						rep.count("bundle-numbers-descending")
+					}
+				}
+			}
+		}
 		if i%5 == 3 {
 			// values with a blank at either end, wherever the record's own validation admits one (blank is a legal
 			// character of most text classes): the JSON trip must carry them as they are
